@@ -106,3 +106,38 @@ package domutil
 //@   requires root != nil
 //@   fresh_assigns elems(ref), cell(Slice), cell(Ref)
 //@   ensures freshslice(result) && forall(i, 0 <= i && i < len(result), result[i] != nil)
+
+// ---- element lookups and URL rewriting helpers: non-nil roots (C01) ----
+//@ func GetFirstElementByTagName(root, tagName)
+//@   requires root != nil
+//@   assigns nothing
+//@   fresh_assigns elems(ref)
+//@   ensures [C01] #first-element-or-nil implies(ebtLen(root, tagName) > 0, result == ebtAt(root, tagName, 0)) && implies(ebtLen(root, tagName) == 0, result == nil)
+
+//@ func GetFirstElementByTagNameInc(root, tagName)
+//@   requires root != nil
+//@   assigns nothing
+//@   fresh_assigns elems(ref)
+//@   ensures [C01] #root-itself-first implies(dom.TagName(root) == tagName, result == root)
+
+//@ func MakeAllLinksAbsolute(root, pageURL)
+//@   requires root != nil
+
+//@ func MakeAllSrcAttributesAbsolute(root, pageURL)
+//@   requires root != nil
+
+//@ func MakeAllSrcSetAbsolute(root, pageURL)
+//@   requires root != nil
+
+//@ func makeSrcSetAbsolute(node, pageURL)
+//@   requires node != nil
+
+//@ func GetSrcSetURLs(node)
+//@   requires node != nil
+
+//@ func GetAllSrcSetURLs(root)
+//@   requires root != nil
+
+//@ func NodeName(node)
+//@   requires node != nil
+//@   assigns nothing
